@@ -217,6 +217,15 @@ def TumblingOk (d : Int) (w : List Ev) : Prop :=
 /-- what the property says about one session window for in-order input: adjacent gaps within the session gap -/
 def SessionOk (g : Int) (w : List Ev) : Prop := ∀ p ∈ adjacent w, p.1.ts ≤ p.2.ts ∧ p.2.ts - p.1.ts ≤ g
 
+/-- executable form of `TumblingOk` (used by the judge on the implementation's own windows) -/
+def tumblingOkB (d : Int) (w : List Ev) : Bool :=
+  decide (w.Pairwise (fun a b => a.ts ≤ b.ts)) &&
+    (match w with | [] => true | f :: _ => w.all (fun e => decide (e.ts < f.ts + d)))
+
+/-- executable form of `SessionOk` -/
+def sessionOkB (g : Int) (w : List Ev) : Bool :=
+  (adjacent w).all (fun p => decide (p.1.ts ≤ p.2.ts) && decide (p.2.ts - p.1.ts ≤ g))
+
 /-- time of the latest operation that emitted something, read off a trace (`l` = before the trace) -/
 def lastEmission : Option Int → List (Op × List (List Ev)) → Option Int
   | l, [] => l
